@@ -72,4 +72,37 @@ PROPS = {
                 "resolvers, plus duration/datetime/instant/toString resolvers, plus 16 public operations x 12 x 12 x 13 increments; "
                 "distinct = distinct op line, non-trivial = accepted cell (outcome ok)",
     },
+    "C06": {
+        "lean_modules": ["TemporalModel.Props.C06"],
+        "suites": ["c06"],
+        "level_text": "Proof: C06_time_add_mod / C06_time_subtract (PlainTime add/subtract = exact integer addition of the duration's "
+                      "total nanoseconds modulo 24 h, any magnitude), C06_instant_add / _subtract (exact addition, range-checked, date "
+                      "units refused), C06_epoch_ms_floor, C06_from_ms_roundtrip, C06_time_until_exact / C06_instant_until_exact (the "
+                      "balanced fields recombine to the exact difference for a largest unit of seconds or above). Tie: generated "
+                      "times/instants/durations (fields up to 9e24 ns, limits +-1) through the public PlainTime / Instant API.",
+        "level_note": "Trusted: Lean kernel (+propext, Classical.choice, Quot.sound); hand model of time.rs/instant.rs/"
+                      "duration/normalized.rs/duration/time.rs with integral-double fields as exact integers and f64::from_i128 as "
+                      "round-to-nearest-even (F64.ofInt); for largest units below seconds the top field is a rounded double: modelled and "
+                      "compared exactly, stated in the theorems as the k >= 3 side condition. Harness + diff.",
+        "why_difference_is_violation":
+            "C06_* theorems prove the model is exact integer arithmetic mod 24 h / on the epoch line; the implementation returned a "
+            "different value or error kind on this input.",
+    },
+    "C09": {
+        "lean_modules": ["TemporalModel.Props.C09"],
+        "suites": ["c09"],
+        "level_text": "Proof: C09_valid_iff (a duration exists iff sign-uniform, |y|,|mo|,|w| < 2^32, exact total < 2^53 s), "
+                      "C09_negated / C09_abs, C09_compare_total (compare = order of exact totals), C09_add_exact / C09_add_comm, "
+                      "C09_round_total_time / _day (round without relativeTo = RoundNumberToIncrement of the exact 24-hour-day total), "
+                      "C09_round_neg, C09_increment_divides_day, C09_total_exact. Tie: all ten fields from boundary pools (0, +-1, 2^31, "
+                      "2^32-1, 2^32, 2^53-bounds +-1, random) in valid and invalid combinations, pairs for add/compare, all units and "
+                      "admissible increments for round/total; `total` is compared bit-exactly through a dyadic model of the f64 steps.",
+        "level_note": "Trusted: Lean kernel (+propext, Classical.choice, Quot.sound); hand model of duration.rs (+time.rs, normalized.rs); "
+                      "integral doubles as exact integers; IEEE-754 +, / and int->double conversion correctly rounded (model F64.lean); "
+                      "the theorem for `total` covers the exact quotient/remainder decomposition, the final double rounding is modelled "
+                      "and compared, not proved. Harness + diff.",
+        "why_difference_is_violation":
+            "C09_* theorems prove the model equals the signed-quantity semantics the property states; the implementation returned a "
+            "different value or error kind on this input.",
+    },
 }
